@@ -26,17 +26,17 @@ from bounded.common import FragStream, make_environ, serve, chunk_encode, fail
 from spec import multipart_spec as ms
 from spec import chunked_spec as cs
 
-BOUND = ('multipart: 4 base forms (boundaries BND, X; text+file parts, UTF-8, delimiter look-alikes) as token lists '
+BOUND = ('multipart: 4 base forms (boundaries BND, X, --a-; text+file parts, UTF-8, delimiter look-alikes) as token lists '
          '[delimiter, CRLF, header block, blank line, data, ..., close-delimiter, CRLF]: every deletion / duplication / adjacent swap '
          'of a token, every token replaced by each of its malformed variants (wrong/short/long boundary, LF or CR line ends, '
-         'padding, close-delimiter variants, 60 header-block variants: no name, no colon, empty value, non-UTF-8, lower case, '
+         'padding, close-delimiter variants, 62 header-block variants: no name, no colon, empty value, non-UTF-8, lower case, '
          'unicode line separators, unbalanced quotes ...), truncation at EVERY offset (honest Content-Length, lying Content-Length, '
          'chunked payload, cut chunked wire), EVERY single-byte deletion, EVERY single-byte substitution by 10 bytes; all header '
-         'blocks of <=3 (quick) / <=4 (thorough) tokens over an 11-token alphabet; all byte strings of length <=5 (quick) / <=6 '
-         '(thorough) over {CR,LF,-,X,:,a} behind 5 well-formed prefixes; JSON: 75 listed bodies (invalid, non-object, non-UTF-8, '
+         'blocks of <=4 (quick) / <=5 (thorough) tokens over an 11-token alphabet; all byte strings of length <=5 (quick) / <=6 '
+         '(thorough) over {CR,LF,-,X,:,a} behind 5 well-formed prefixes; JSON: 81 listed bodies (invalid, non-object, non-UTF-8, '
          'UTF-16, deep nesting, huge numbers, oversized) and all strings <=3 (quick) / <=4 (thorough) over a 10-letter JSON alphabet; '
-         'urlencoded: listed + all strings <=4/<=5 over {a,=,&,%,+,0xff}; every listed body also under the other content types '
-         '(multipart with/without/with another boundary, urlencoded, json, text/plain, none); garbage chunked wires; seeded random '
+         'urlencoded: 31 listed + all strings <=4/<=5 over {a,=,&,%,+,0xff}; every listed body also under the other content types '
+         '(32 spellings: multipart with/without/with another/quoted boundary, urlencoded, json, text/plain, none); garbage chunked wires; seeded random '
          'bytes and random multi-mutations; x framing {Content-Length full/1-byte/7-byte reads, chunked pieces all/1/5} x '
          'max_memfile_size {102400, 64, 16} (+max_body_size 40) x handler access {forms, files, POST, json, body, all, catch}.')
 NONTRIVIAL_RULE = 'distinct (body, content type, framing, declared length, thresholds, access mode); non-trivial = non-empty body'
@@ -248,7 +248,7 @@ def _gen(tier, seed):
 
     # ---- 2. small scope: header blocks over a token alphabet, inside an otherwise well-formed body
     halpha = [b':', b';', b'=', b'"', b' ', b'\r\n', b'\n', b'a', b'\xff', b'name', b'Content-Disposition']
-    for n in range(0, (3 if quick else 4) + 1):
+    for n in range(0, (4 if quick else 5) + 1):
         for t in itertools.product(halpha, repeat=n):
             h = b''.join(t)
             body = b'--X\r\n' + h + b'\r\n\r\nv\r\n--X\r\n' + _cd(b'name="z"') + b'\r\n\r\nw\r\n--X--\r\n'
